@@ -137,6 +137,20 @@ func tvToV(t sut.TV) V {
 		return vStr(t.Raw())
 	case 'b':
 		return vStr(t.Raw())
+	case 'l':
+		if xs, ok := t.List(); ok {
+			return vMV(xs)
+		}
+		return vStr(string(t))
+	case 'L':
+		if xs, ok := t.List(); ok {
+			out := make([]string, len(xs))
+			for i, x := range xs {
+				out[i] = sut.TV(x).Raw()
+			}
+			return vMV(out)
+		}
+		return vStr(string(t))
 	case 'x':
 		// multivalues arrive as "x:[]string:[a b c]" / "x:[]interface {}:[a b c]"
 		raw := t.Raw()
@@ -267,7 +281,7 @@ func checkL2(cs *l2Case, o *pt.Obs) error {
 			stateful = true
 		}
 	}
-	if knownSkip(cs.Chain, o) {
+	if knownSkip(cs.Chain, o, true) {
 		return nil
 	}
 	lt := limitedTop(cs.Chain)
@@ -299,6 +313,10 @@ func checkL2(cs *l2Case, o *pt.Obs) error {
 		}
 		head := fmt.Sprintf("chain: %s\nlayout %d %s\nvs layout 0 %s", text, li, layoutText(cs.Layouts[li], cs.Reverse[li]),
 			layoutText(cs.Layouts[0], cs.Reverse[0]))
+		if (out.err != "") != (ref.err != "") && hasHead(cs.Chain) {
+			o.Class("error_depends_on_early_exit")
+			continue
+		}
 		if (out.err != "") != (ref.err != "") {
 			return fmt.Errorf("%s\none layout fails and the other does not:\n  layout %d: err=%q\n  layout 0: err=%q\ntable:\n%s",
 				head, li, out.err, ref.err, rowsText(tb.modelRows()))
